@@ -2,7 +2,7 @@
 //
 // One history per input line:
 //
-//	scn <udp|tcp> <queue> <limit> <eplimit> <op> <op> ...
+//	scn <udp|tcp|tcp@<n>> <queue> <limit> <eplimit> <op> <op> ...       (tcp@<n>: ConnectionCacheSize n, the session's read buffer)
 //
 // ops (colon separated):
 //
@@ -16,6 +16,11 @@
 //	                      p      nested cc.Ping (10 s deadline)
 //	burst:<m1>-<m2>-…   several requests with returning handlers, back to back (no idle point in between)
 //	call:<prog>         the same program run by the application outside any handler
+//	watch:<k>:<prog>    the application registers observation k (cc.DoObserve, 20 s deadline, outside any handler); its callback
+//	                    runs prog when the first notification after the registration arrives (other notifications: returns)
+//	note:<k>            the peer sends the next notification of observation k (non-confirmable, increasing Observe value);
+//	                    the j-th notification of observation k is logged like a request with the number 9000+100k+j
+//	pad:<n>             the next frame / datagram of the peer is padded to exactly n bytes (payload)
 //	resp:<k>            the peer answers nested exchange k (piggybacked on the datagram transport; with an Observe option for o<k>)
 //	ack:<k>             the peer sends the bare ACK for nested exchange k (udp)
 //	sep:<k>             the peer sends the separate response for nested exchange k (udp, NON)
@@ -70,19 +75,22 @@ type conn interface {
 }
 
 type world struct {
-	mu       sync.Mutex
-	udp      bool
-	cc       conn
-	observe  func(req *pool.Message) error
-	events   []string
-	progs    map[string]string // request token hex -> handler program
-	sent     func() []sentMsg
-	last     map[string]sentMsg
-	lastPing sentMsg
-	feed     chan []byte
-	fed      int
-	handed   int
-	nextMid  int32
+	mu          sync.Mutex
+	udp         bool
+	cc          conn
+	observe     func(req *pool.Message) error
+	observeWith func(req *pool.Message, f func(*pool.Message)) error
+	events      []string
+	progs       map[string]string // request token hex -> handler program
+	sent        func() []sentMsg
+	last        map[string]sentMsg
+	lastPing    sentMsg
+	feed        chan []byte
+	padNext     int
+	notes       map[int]int // observation -> notifications sent so far
+	fed         int
+	handed      int
+	nextMid     int32
 }
 
 type sentMsg struct {
@@ -168,6 +176,37 @@ func (w *world) runProg(prog string) {
 	}
 }
 
+// watch registers observation k; the callback is invoked for the registration's response (invocation 1) and for every
+// notification (invocation j+1 for the j-th): it logs the notification like a request and runs prog for the first one.
+func (w *world) watch(k int, prog string) {
+	ctx, cancel := context.WithTimeout(context.Background(), 20*time.Second)
+	defer cancel()
+	start := time.Now()
+	req := w.cc.AcquireMessage(ctx)
+	req.SetCode(codes.GET)
+	req.SetToken(nestTok(k))
+	_ = req.SetPath("/n")
+	req.SetObserve(0)
+	inv := 0
+	err := w.observeWith(req, func(*pool.Message) {
+		w.mu.Lock()
+		inv++
+		i := inv
+		w.mu.Unlock()
+		if i == 1 {
+			return
+		}
+		id := 9000 + 100*k + (i - 1)
+		w.log(fmt.Sprintf("s%d", id))
+		if i == 2 {
+			w.runProg(prog)
+		}
+		w.log(fmt.Sprintf("e%d", id))
+	})
+	w.cc.ReleaseMessage(req)
+	w.log(fmt.Sprintf("n%d:%s:%d", k, errName(err), time.Since(start).Milliseconds()))
+}
+
 func (w *world) handler(r *pool.Message) {
 	if r.Code() < codes.GET || r.Code() > codes.DELETE {
 		return
@@ -185,7 +224,31 @@ func (w *world) handler(r *pool.Message) {
 	w.log(fmt.Sprintf("e%d", m))
 }
 
+// build encodes one message of the peer; after `pad:<n>` the message gets the payload that makes it exactly n bytes long
+// (if no payload length does, the nearest longer one).
 func (w *world) build(typ message.Type, code codes.Code, tok message.Token, mid int32, f func(m *pool.Message)) []byte {
+	target := w.padNext
+	w.padNext = 0
+	if target == 0 {
+		return w.build1(typ, code, tok, mid, f, -1)
+	}
+	var best []byte
+	for p := 0; p <= target+8; p++ {
+		d := w.build1(typ, code, tok, mid, f, p)
+		if len(d) == target {
+			return d
+		}
+		if len(d) > target && best == nil {
+			best = d
+		}
+	}
+	if best == nil {
+		best = w.build1(typ, code, tok, mid, f, -1)
+	}
+	return best
+}
+
+func (w *world) build1(typ message.Type, code codes.Code, tok message.Token, mid int32, f func(m *pool.Message), payload int) []byte {
 	m := pool.NewMessage(context.Background())
 	m.SetCode(code)
 	if len(tok) > 0 {
@@ -193,6 +256,9 @@ func (w *world) build(typ message.Type, code codes.Code, tok message.Token, mid 
 	}
 	if f != nil {
 		f(m)
+	}
+	if payload > 0 {
+		m.SetBody(bytes.NewReader(bytes.Repeat([]byte{'p'}, payload)))
 	}
 	if w.udp {
 		m.SetType(typ)
@@ -306,6 +372,23 @@ func (w *world) apply(f []string, obsExch map[int]bool) {
 	case f[0] == "call" && len(f) == 2:
 		time.Sleep(time.Millisecond)
 		go w.runProg(f[1])
+	case f[0] == "watch" && len(f) == 3:
+		time.Sleep(time.Millisecond)
+		k := atoi(f[1])
+		obsExch[k] = true
+		go w.watch(k, f[2])
+	case f[0] == "note" && len(f) == 2:
+		time.Sleep(time.Millisecond)
+		k := atoi(f[1])
+		w.mu.Lock()
+		w.notes[k]++
+		j := w.notes[k]
+		w.mu.Unlock()
+		mid := w.nextMid
+		w.nextMid++
+		w.push(w.build(message.NonConfirmable, codes.Content, nestTok(k), mid, func(x *pool.Message) { x.SetObserve(uint32(10 + j)) }))
+	case f[0] == "pad" && len(f) == 2:
+		w.padNext = atoi(f[1])
 	case f[0] == "sleep" && len(f) == 2:
 		time.Sleep(time.Duration(atoi(f[1])) * time.Millisecond)
 	case f[0] == "close":
@@ -364,7 +447,7 @@ func (w *world) run(ops []string, inject func([]byte) error) string {
 }
 
 func newWorld(udp bool) *world {
-	return &world{udp: udp, progs: map[string]string{}, last: map[string]sentMsg{}, feed: make(chan []byte, 4096), nextMid: 40000}
+	return &world{udp: udp, progs: map[string]string{}, last: map[string]sentMsg{}, feed: make(chan []byte, 4096), nextMid: 40000, notes: map[int]int{}}
 }
 
 func runUDP(t *testing.T, queue int, limit, eplimit int64, ops []string) (out string) {
@@ -383,6 +466,10 @@ func runUDP(t *testing.T, queue int, limit, eplimit int64, ops []string) (out st
 			_, err := cc.DoObserve(req, func(*pool.Message) {})
 			return err
 		}
+		w.observeWith = func(req *pool.Message, f func(*pool.Message)) error {
+			_, err := cc.DoObserve(req, f)
+			return err
+		}
 		w.sent = func() []sentMsg {
 			var out []sentMsg
 			for _, d := range s.TakeSent() {
@@ -398,7 +485,7 @@ func runUDP(t *testing.T, queue int, limit, eplimit int64, ops []string) (out st
 	return out
 }
 
-func runTCP(t *testing.T, queue int, limit, eplimit int64, ops []string) (out string) {
+func runTCP(t *testing.T, cache int, queue int, limit, eplimit int64, ops []string) (out string) {
 	synctest.Test(t, func(t *testing.T) {
 		w := newWorld(false)
 		cc, peer, err := mem.NewTCPConn(mem.TCPOpts{Mutate: func(cfg *tcpclient.Config) {
@@ -406,6 +493,9 @@ func runTCP(t *testing.T, queue int, limit, eplimit int64, ops []string) (out st
 			cfg.LimitClientEndpointParallelRequests = eplimit
 			cfg.ReceivedMessageQueueSize = queue
 			cfg.BlockwiseEnable = false
+			if cache > 0 {
+				cfg.ConnectionCacheSize = uint16(cache)
+			}
 			cfg.Handler = func(_ *responsewriter.ResponseWriter[*tcpclient.Conn], r *pool.Message) { w.handler(r) }
 		}})
 		if err != nil {
@@ -417,6 +507,10 @@ func runTCP(t *testing.T, queue int, limit, eplimit int64, ops []string) (out st
 		w.cc = cc
 		w.observe = func(req *pool.Message) error {
 			_, err := cc.DoObserve(req, func(*pool.Message) {})
+			return err
+		}
+		w.observeWith = func(req *pool.Message, f func(*pool.Message)) error {
+			_, err := cc.DoObserve(req, f)
 			return err
 		}
 		w.sent = func() []sentMsg {
@@ -455,7 +549,11 @@ func TestC11(t *testing.T) {
 		if f[1] == "udp" {
 			fmt.Fprintln(w, runUDP(t, q, lim, ep, f[5:]))
 		} else {
-			fmt.Fprintln(w, runTCP(t, q, lim, ep, f[5:]))
+			cache := 0
+			if i := strings.Index(f[1], "@"); i >= 0 {
+				cache, _ = strconv.Atoi(f[1][i+1:])
+			}
+			fmt.Fprintln(w, runTCP(t, cache, q, lim, ep, f[5:]))
 		}
 	})
 	if err != nil {
